@@ -13,12 +13,22 @@ have = git("branch", "--list", branch).strip()
 subj2hash = {}
 if have:
     commits = git("log", "--reverse", "--format=%H", "main.." + branch).split()
+    mainsubj = {}
+    for l in git("log", "--format=%h %s", "-400", "main").splitlines():
+        h, sj = l.split(" ", 1)
+        mainsubj.setdefault(sj, h)
     for c in commits:
         subj = git("log", "-1", "--format=%s", c).strip()
         if not (subj.startswith("fix:") or subj.startswith("verif hook:")):
             print("skipping non-fix commit", c[:8], subj); continue
+        if subj in mainsubj:
+            subj2hash[subj] = mainsubj[subj]
+            print("already in main", mainsubj[subj], subj); continue
         r = subprocess.run(["git", "-C", "/repo", "cherry-pick", c], capture_output=True, text=True)
         if r.returncode != 0:
+            if "previous cherry-pick is now empty" in (r.stdout + r.stderr) or "nothing to commit" in (r.stdout + r.stderr):
+                git("cherry-pick", "--skip", check=False)
+                print("empty (already applied), skipped", c[:8], subj); continue
             print("CONFLICT cherry-picking", c[:8], subj); print(r.stdout[-2000:], r.stderr[-2000:]); sys.exit(1)
         subj2hash[subj] = git("rev-parse", "--short", "HEAD").strip()
         print("picked", subj2hash[subj], subj)
